@@ -181,7 +181,19 @@ func replaySeeds(prop, vdir, repo string) []seedReplay {
 			}
 		}
 		if rel {
-			jobs = append(jobs, job{"benign/" + id, p, "silent"})
+			expect := "silent"
+			// a false alarm of this checker that is known and not yet repaired is said so beside the patch
+			// (benign/<id>/known_open.json: property -> what fires and why it is wrong); the replay then
+			// accepts either verdict for that property instead of pretending silence. DESIGN.md §9 lists it.
+			if kb, err := os.ReadFile(filepath.Join(filepath.Dir(p), "known_open.json")); err == nil {
+				var open map[string]string
+				if json.Unmarshal(kb, &open) == nil {
+					if _, ok := open[prop]; ok {
+						expect = "not-decided"
+					}
+				}
+			}
+			jobs = append(jobs, job{"benign/" + id, p, expect})
 		}
 	}
 	out := make([]seedReplay, len(jobs))
